@@ -10,6 +10,7 @@ mkdir -p evidence replays .lock coq/Gen
 /venv/bin/python harness/mkproject.py
 cd coq
 timeout 6000 make -k -j16 > ../.lock/setup_make.log 2>&1 || { tail -30 ../.lock/setup_make.log; echo "setup: coq build failed (checks will report it)"; }
+/venv/bin/python ../harness/warm.py > ../.lock/setup_warm.log 2>&1 || true
 cd ../ocaml
 ./build.sh || echo "setup: ocaml build failed"
 echo "setup done"
